@@ -95,7 +95,9 @@ func (s *DiskKeyIndex) binarySearch(target []byte) (uint64, *proto.IndexEntry, b
 		at, err := s.findAt(h)
 		if err != nil {
 			if errors.Is(err, io.EOF) {
-				return n, nil, false, nil
+				// no record starts at or after h: the answer can only be to the left of h
+				j = h
+				continue
 			}
 			return 0, nil, false, err
 		}
@@ -123,7 +125,7 @@ func (s *DiskKeyIndex) findAt(off uint64) (*proto.IndexEntry, error) {
 
 	record := &proto.IndexEntry{}
 	_, _, err := s.reader.SeekNext(record, off)
-	if len(s.offsetCache) < s.offsetCacheMaxSize {
+	if err == nil && len(s.offsetCache) < s.offsetCacheMaxSize {
 		s.offsetCache[off] = record
 	}
 
